@@ -46,7 +46,10 @@ InDomain == mi > 0 /\ IntSpellable(base, V(mi)) /\ ci > 0
 Case(i, t, variant) ==
   [kind |-> "int", base |-> base, suffix |-> Suf.t, variant |-> variant,
    src |-> IntSpellingD(base, Suf, Digs(base, i), variant),
-   val |-> DecTab[i], size |-> t.w \div 8, neg |-> IF t.sg THEN 1 ELSE 0, type |-> t.n]
+   val |-> DecTab[i], size |-> t.w \div 8, neg |-> IF t.sg THEN 1 ELSE 0, type |-> t.n,
+   \* in #if every signed type has the range of intmax_t (6.10.1p4): the ladder stops at the first signed candidate
+   \* unless the suffix has u or the value needs 64 unsigned bits
+   ppneg |-> IF ~Suf.u /\ Fits(64, TRUE, V(i)) THEN 1 ELSE 0]
 
 Init == base \in Bases /\ si \in DOMAIN IntSuffixes /\ mi = 0 /\ ci = 0 /\ pci = 0 /\ ti = NoType
 Grow == /\ mi < Len(Mags)
